@@ -44,6 +44,7 @@ def families_e3(prop, tier, seed):
     fams.append(('exhaustive-variants', var))
     nrand = 150 if tier == 'quick' else 1500
     fams.append(('random(seed=%d)' % seed, gram.random_family(seed, nrand)))
+    fams.append(('descriptions', description_family(tier)))
     from . import regress
     fams.append(('regression shapes', [regress.HOPCROFT_SPLITTER]))
     nloop = 400 if tier == 'quick' else 4000
@@ -54,6 +55,28 @@ def families_e3(prop, tier, seed):
         fams.append(('optional-wrapped exhaustive', [gram.mk('cmd', gram.Opt(t)) for t in trees] +
                      [gram.mk('cmd', gram.Many(gram.Opt(t))) for t in trees]))
     return fams
+
+
+def description_family(tier):
+    """A description written after a group: in each alternative the leftmost literal without a description of
+    its own gets it, once per sequence; literals with their own description keep it."""
+    L, S, A, Sub, Opt, Many, D = gram.Lit, gram.Seq, gram.Alt, gram.Sub, gram.Opt, gram.Many, gram.Descr
+    own = [L('v', 'own v'), L('w')]
+    out = []
+    leaves = [L('a'), L('b', 'own b'), L('c')]
+    groups = []
+    for x in leaves:
+        for y in leaves:
+            if x[1] == y[1]:
+                continue
+            groups += [A(x, y), S(x, y), A(S(x, y), L('e')), S(A(x, y), L('e')), Opt(S(x, y)), Many(A(x, y)), A(x, S(y, L('e', 'own e'))),
+                       S(x, Opt(y), L('e'))]
+    for grp in groups:
+        out.append(gram.mk('cmd', S(D(grp, 'grp'), L('z'))))
+        out.append(gram.mk('cmd', S(L('p', 'own p'), D(grp, 'grp'), L('z', 'own z'))))
+    out.append(gram.mk('cmd', S(D(A(Sub(L('--o='), A(L('x'), L('y'))), S(L('--o'), L('x'))), 'opt'), L('z'))))
+    out.append(gram.mk('cmd', S(gram.Ref('N'), L('z')), [('N', None, D(A(L('a'), S(L('b', 'own b'), L('c'))), 'grp'))]))
+    return out if tier != 'quick' else out
 
 
 def run_e3(prop, tier, seed, families, shells=SHELLS, props=None, analyse=None):
@@ -250,6 +273,7 @@ def family_c09(tier, seed):
                 out.append(gram.mk('cmd', F(S(L(h), t1), S(L(h), t2))))
                 out.append(gram.mk('cmd', A(S(L(h), t1), S(L(h), t2))))
                 out.append(gram.mk('cmd', S(L('p'), F(S(L(h), t1), L('q'), S(L(h), t2)))))
+                out.append(gram.mk('cmd', F(L('q'), S(L(h), t1), S(L(h), t2))))
                 out.append({'command': 'cmd', 'variants': [S(L(h), t1), S(L(h), t2)], 'defs': []})
                 out.append(gram.mk('cmd', F(Ref('P'), Ref('Q')), [('P', None, S(L(h), t1)), ('Q', None, S(L(h), t2))]))
         out.append(gram.mk('cmd', F(L(h), S(L(h), L('b')))))
@@ -261,6 +285,7 @@ def family_c09(tier, seed):
         for t1, t2 in ((L('a'), L('b')), (L('a'), S(L('a'), L('b'))), (Opt(L('a')), L('b'))):
             out.append(gram.mk('cmd', F(S(item, t1), S(item, t2)), defs))
             out.append(gram.mk('cmd', F(S(item, t1), L('q'), S(item, t2)), defs))
+            out.append(gram.mk('cmd', F(L('q'), S(item, t1), S(item, t2)), defs))
             out.append(gram.mk('cmd', S(L('p'), Many(F(S(item, t1), S(item, t2)))), defs))
     # within-word expressions repeated with permuted alternatives / through different definitions
     vals = [('a', 'b'), ('a', 'ab'), ('x', 'y', 'z')]
@@ -492,6 +517,11 @@ def family_c01(tier, seed):
         gram.mk('cmd', S(Ref('N'), Many(A(L('p'), Ref('M')))), [('N', None, A(L('u'), S(L('v'), Ref('M')))), ('M', None, Sub(L('m:'), A(L('1'), L('2'))))]),
         gram.mk('cmd', S(L('a=b'), A(L('c:d'), L('c:e')), L('x'))),
         gram.mk('cmd', S(Sub(L('o:'), A(L('p=1'), L('q=2'))), L('x'))),
+        # within-word expressions of the same shape whose literals are split differently over the || levels
+        gram.mk('cmd', S(A(Sub(L('--color='), F(L('auto'), A(L('always'), L('never')))),
+                           Sub(L('--pager='), F(A(L('auto'), L('always')), L('never')))), L('x'))),
+        {'command': 'cmd', 'variants': [Sub(L('--c='), F(L('au'), A(L('al'), L('ne')))), Sub(L('--p='), F(A(L('au'), L('al')), L('ne')))], 'defs': []},
+        gram.mk('cmd', S(A(Sub(L('k='), F(L('u'), Cmd(probe('c1')))), Sub(L('m='), F(Cmd(probe('c1')), L('u')))), L('x'))),
         # typed words with two different word-break characters, in both orders
         gram.mk('cmd', S(A(L('d=f:s'), L('d=f:l'), L('u:v=w')), L('x'))),
         gram.mk('cmd', S(Sub(L('r='), A(L('o:m'), L('o:d'))), L('x'))),
@@ -564,6 +594,7 @@ def run_e2(prop, tier, seed, families, K, configs, allow_regions=(), max_paths=6
     samples = []
     regions = {}
     bounds = {}
+    over_budget = []
     for r in results:
         status[r['status']] = status.get(r['status'], 0) + 1
         paths += r['paths']
@@ -576,6 +607,8 @@ def run_e2(prop, tier, seed, families, K, configs, allow_regions=(), max_paths=6
             queries[k] = queries.get(k, 0) + v
         for reason in r['region']:
             regions[reason] = regions.get(reason, 0) + 1
+        if r['status'] == 'budget-exceeded':
+            over_budget.append(r['text'])
         if r['status'] == 'ok':
             programs += 1
             if r['nontrivial']:
@@ -609,6 +642,7 @@ def run_e2(prop, tier, seed, families, K, configs, allow_regions=(), max_paths=6
         'families': fam_sizes,
         'status_counts': status,
         'excluded_by_region_query': regions,
+        'programs_not_explored_to_the_end_within_budget': over_budget,
         'bounds': {'complete_words_K': '0..%d (families tagged K=3: 0..3)' % K, 'word_length_L': '<= longest vocabulary item + 1 (max seen %s)' % bounds.get('max_L'),
                    'alphabet': 'characters of the vocabulary and command outputs plus z = : (no glob metacharacters)',
                    'COMP_WORDBREAKS': configs},
